@@ -290,6 +290,7 @@ pub fn naming_templates() -> Vec<(&'static str, J)> {
         ("ns-dotted", json!({"type":"record","name":"x.y.R","namespace":"ignored","fields":[{"name":"a","type":{"type":"fixed","name":"F","size":1}},{"name":"b","type":"x.y.F"},{"name":"c","type":"F"}]})),
         ("ns-nested-inherit", json!({"type":"record","name":"R","namespace":"n1","fields":[{"name":"a","type":{"type":"record","name":"M","namespace":"n2","fields":[{"name":"x","type":{"type":"enum","name":"E","symbols":["A"]}},{"name":"y","type":"E"}]}},{"name":"b","type":"n2.E"},{"name":"c","type":"n2.M"}]})),
         ("ns-same-simple-name", json!({"type":"record","name":"R","namespace":"n1","fields":[{"name":"a","type":{"type":"fixed","name":"X","size":1}},{"name":"b","type":{"type":"fixed","name":"X","namespace":"n2","size":2}},{"name":"c","type":"X"},{"name":"d","type":"n2.X"}]})),
+        ("ns-shadowing-null-namespace-type", json!({"type":"record","name":"Holder","fields":[{"name":"plain","type":{"type":"fixed","name":"Node","size":2}},{"name":"tree","type":{"type":"record","name":"org.example.Node","fields":[{"name":"v","type":"int"},{"name":"next","type":["null","Node"]}]}},{"name":"plain2","type":"Node"}]})),
         ("rec-nullable", json!({"type":"record","name":"L","fields":[{"name":"v","type":"int"},{"name":"next","type":["null","L"]}]})),
         ("rec-array", json!({"type":"record","name":"T","fields":[{"name":"v","type":"string"},{"name":"kids","type":{"type":"array","items":"T"}}]})),
         ("rec-map", json!({"type":"record","name":"T","namespace":"q","fields":[{"name":"kids","type":{"type":"map","values":"T"}}]})),
@@ -309,5 +310,7 @@ pub fn naming_templates_empty_ns() -> Vec<(&'static str, J)> {
     vec![
         ("ns-empty-nested", json!({"type":"record","name":"R","namespace":"a","fields":[{"name":"a","type":{"type":"fixed","name":"F","namespace":"","size":1}},{"name":"b","type":".F"}]})),
         ("ns-leading-dot", json!({"type":"record","name":"R","namespace":"a","fields":[{"name":"a","type":{"type":"enum","name":".E","symbols":["A","B"]}},{"name":"b","type":".E"}]})),
+        ("ns-empty-record-with-children", json!({"type":"record","name":"Outer","namespace":"com.example","fields":[{"name":"t4","type":{"type":"fixed","name":"Tag","size":4}},{"name":"mid","type":{"type":"record","name":"Mid","namespace":"","fields":[{"name":"t8","type":{"type":"fixed","name":"Tag","size":8}},{"name":"again","type":"Tag"}]}},{"name":"back","type":"Tag"}]})),
+        ("ns-leading-dot-record-with-children", json!({"type":"record","name":"Outer","namespace":"com.example","fields":[{"name":"mid","type":{"type":"record","name":".Mid","fields":[{"name":"e","type":{"type":"enum","name":"Kind","symbols":["A","B"]}},{"name":"e2","type":"Kind"}]}}]})),
     ]
 }
